@@ -13,8 +13,10 @@ attribute [-simp] List.getD_eq_getElem?_getD
 inductive PStepP (p : Nat) : World → World → Prop
   | refl (w : World) : PStepP p w w
   | setP (w : World) (x : Pub) : PStepP p w (setP w p x)
-  | setC (w : World) (x c : Conn) : getC w p x.sid = some c → x.pid = p → x.rAtt = c.rAtt → PStepP p w (setC w x)
-  | pushC (w : World) (x : Conn) : x.pid = p → x.rAtt = false → getC w p x.sid = none → PStepP p w (pushC w x)
+  | setC (w : World) (x c : Conn) : getC w p x.sid = some c → x.pid = p → x.rAtt = c.rAtt →
+      ((c.sAtt = true ∨ c.rAtt = true) → (x.sAtt = true ∨ x.rAtt = true)) → PStepP p w (setC w x)
+  | pushC (w : World) (x : Conn) : x.pid = p → x.rAtt = false → x.sAtt = true → getC w p x.sid = none →
+      PStepP p w (pushC w x)
   | dropC (w : World) (s : Nat) : PStepP p w (dropC w p s)
   | trans {a b c : World} : PStepP p a b → PStepP p b c → PStepP p a c
 
@@ -55,36 +57,52 @@ theorem PStepP.facts {p : Nat} {w w' : World} (h : PStepP p w w') :
     w'.panicked = w.panicked ∧
     w'.conns.filter (fun c => c.pid ≠ p) = w.conns.filter (fun c => c.pid ≠ p) ∧
     w'.pubs.filter (fun e => e.1 ≠ p) = w.pubs.filter (fun e => e.1 ≠ p) ∧
-    (∀ s c', getC w' p s = some c' → c'.rAtt = true → ∃ c, getC w p s = some c ∧ c.rAtt = true) := by
+    (∀ s c', getC w' p s = some c' → c'.rAtt = true → ∃ c, getC w p s = some c ∧ c.rAtt = true) ∧
+    ((∀ s c, getC w p s = some c → c.sAtt = true ∨ c.rAtt = true) →
+      ∀ s c', getC w' p s = some c' → c'.sAtt = true ∨ c'.rAtt = true) := by
   induction h with
-  | refl w => exact ⟨rfl, rfl, rfl, rfl, rfl, rfl, rfl, fun s c' h1 h2 => ⟨c', h1, h2⟩⟩
-  | setP w x => exact ⟨rfl, rfl, rfl, rfl, rfl, rfl, filter_map_upd_pub _ _ _, fun s c' h1 h2 => ⟨c', h1, h2⟩⟩
-  | setC w x c hc hx hr =>
-    refine ⟨rfl, rfl, rfl, rfl, rfl, filter_map_upd_conn _ _ _ hx, rfl, ?_⟩
-    intro s c' h1 h2
+  | refl w => exact ⟨rfl, rfl, rfl, rfl, rfl, rfl, rfl, fun s c' h1 h2 => ⟨c', h1, h2⟩, fun h => h⟩
+  | setP w x => exact ⟨rfl, rfl, rfl, rfl, rfl, rfl, filter_map_upd_pub _ _ _, fun s c' h1 h2 => ⟨c', h1, h2⟩, fun h => h⟩
+  | setC w x c hc hx hr hatt =>
     have hc' : getC w x.pid x.sid = some c := by rw [hx]; exact hc
-    rw [getC_setC_self hc' x ⟨rfl, rfl⟩] at h1
-    by_cases hs : p = x.pid ∧ s = x.sid
-    · simp [hs] at h1; subst h1
-      obtain ⟨_, rfl⟩ := hs
-      exact ⟨c, hc, hr ▸ h2⟩
-    · simp [hs] at h1
-      exact ⟨c', h1, h2⟩
-  | pushC w x hx hr hn =>
-    refine ⟨rfl, rfl, rfl, rfl, rfl, ?_, rfl, ?_⟩
+    refine ⟨rfl, rfl, rfl, rfl, rfl, filter_map_upd_conn _ _ _ hx, rfl, ?_, ?_⟩
+    · intro s c' h1 h2
+      rw [getC_setC_self hc' x ⟨rfl, rfl⟩] at h1
+      by_cases hs : p = x.pid ∧ s = x.sid
+      · simp [hs] at h1; subst h1
+        obtain ⟨_, rfl⟩ := hs
+        exact ⟨c, hc, hr ▸ h2⟩
+      · simp [hs] at h1
+        exact ⟨c', h1, h2⟩
+    · intro hall s c' h1
+      rw [getC_setC_self hc' x ⟨rfl, rfl⟩] at h1
+      by_cases hs : p = x.pid ∧ s = x.sid
+      · simp [hs] at h1; subst h1
+        exact hatt (hall _ c hc)
+      · simp [hs] at h1
+        exact hall s c' h1
+  | pushC w x hx hr hsa hn =>
+    have hn' : getC w x.pid x.sid = none := by rw [hx]; exact hn
+    refine ⟨rfl, rfl, rfl, rfl, rfl, ?_, rfl, ?_, ?_⟩
     · show (w.conns ++ [x]).filter _ = _
       rw [List.filter_append]
       simp [hx]
     · intro s c' h1 h2
-      have hn' : getC w x.pid x.sid = none := by rw [hx]; exact hn
       rw [getC_pushC w x p s hn'] at h1
       by_cases hs : p = x.pid ∧ s = x.sid
       · simp [hs] at h1; subst h1
         rw [hr] at h2; cases h2
       · simp [hs] at h1
         exact ⟨c', h1, h2⟩
+    · intro hall s c' h1
+      rw [getC_pushC w x p s hn'] at h1
+      by_cases hs : p = x.pid ∧ s = x.sid
+      · simp [hs] at h1; subst h1
+        exact .inl hsa
+      · simp [hs] at h1
+        exact hall s c' h1
   | dropC w s =>
-    refine ⟨rfl, rfl, rfl, rfl, rfl, ?_, rfl, ?_⟩
+    refine ⟨rfl, rfl, rfl, rfl, rfl, ?_, rfl, ?_, ?_⟩
     · show (w.conns.filter _).filter _ = _
       rw [List.filter_filter]
       apply List.filter_congr
@@ -96,18 +114,27 @@ theorem PStepP.facts {p : Nat} {w w' : World} (h : PStepP p w w') :
       · simp [hs] at h1
       · simp [hs] at h1
         exact ⟨c', h1, h2⟩
+    · intro hall s' c' h1
+      rw [getC_dropC'] at h1
+      by_cases hs : s' = s
+      · simp [hs] at h1
+      · simp [hs] at h1
+        exact hall s' c' h1
   | trans _ _ ih1 ih2 =>
-    obtain ⟨a1, a2, a3, a4, a5, a6, a7, a8⟩ := ih1
-    obtain ⟨b1, b2, b3, b4, b5, b6, b7, b8⟩ := ih2
-    refine ⟨b1.trans a1, b2.trans a2, b3.trans a3, b4.trans a4, b5.trans a5, b6.trans a6, b7.trans a7, ?_⟩
+    obtain ⟨a1, a2, a3, a4, a5, a6, a7, a8, a9⟩ := ih1
+    obtain ⟨b1, b2, b3, b4, b5, b6, b7, b8, b9⟩ := ih2
+    refine ⟨b1.trans a1, b2.trans a2, b3.trans a3, b4.trans a4, b5.trans a5, b6.trans a6, b7.trans a7, ?_,
+      fun hall => b9 (a9 hall)⟩
     intro s c' h1 h2
     obtain ⟨c1, g1, g2⟩ := b8 s c' h1 h2
     exact a8 s c1 g1 g2
 
 theorem PStepP.setC' {p s : Nat} {w : World} {c : Conn} (hc : getC w p s = some c) (x : Conn)
-    (h1 : x.pid = c.pid) (h2 : x.sid = c.sid) (h3 : x.rAtt = c.rAtt) : PStepP p w (Iox2.PubSub.setC w x) := by
+    (h1 : x.pid = c.pid) (h2 : x.sid = c.sid) (h3 : x.rAtt = c.rAtt)
+    (h4 : (c.sAtt = true ∨ c.rAtt = true) → (x.sAtt = true ∨ x.rAtt = true)) :
+    PStepP p w (Iox2.PubSub.setC w x) := by
   have hk := getC_key hc
-  exact .setC w x c (by rw [h2, hk.2]; exact hc) (h1.trans hk.1) h3
+  exact .setC w x c (by rw [h2, hk.2]; exact hc) (h1.trans hk.1) h3 h4
 
 theorem detachSender_PP (w : World) (p s : Nat) : PStepP p w (detachSender w p s) := by
   rw [detachSender_eq]
@@ -115,14 +142,14 @@ theorem detachSender_PP (w : World) (p s : Nat) : PStepP p w (detachSender w p s
   · exact .refl _
   next c hc =>
     split
-    · exact .setC' hc _ rfl rfl rfl
+    next hr => exact .setC' hc _ rfl rfl rfl (fun _ => .inr hr)
     · exact .dropC _ _
 
 theorem retrieveOne_PP (w : World) (p s : Nat) : PStepP p w (retrieveOne w p s) := by
   unfold retrieveOne
   split
   next P c hp hc =>
-    exact .trans (.setP _ _) (.setC' (w := setP w p _) hc _ rfl rfl rfl)
+    exact .trans (.setP _ _) (.setC' (w := setP w p _) hc _ rfl rfl rfl (fun h => h))
   · exact .refl _
 
 theorem retrieveFrom_PP (w : World) (p : Nat) (l : List (Option Nat)) : PStepP p w (retrieveFrom w p l) := by
@@ -149,7 +176,7 @@ theorem deliverTo_PP (w : World) (p s ch q : Nat) : PStepP p w (deliverTo w p s 
       rw [deliverTo_eq hp hc]
       obtain ⟨t1, _, _⟩ := trySend_core c w.cfg.overflow ch q
       have h1 : PStepP p w (setC w (c.trySend w.cfg.overflow ch q).1) :=
-        .setC' hc _ t1.pid t1.sid t1.rAtt
+        .setC' hc _ t1.pid t1.sid t1.rAtt (fun h => by rw [t1.sAtt, t1.rAtt]; exact h)
       cases hr : (c.trySend w.cfg.overflow ch q).2 with
       | ok ev => exact .trans h1 (.setP _ _)
       | full => exact h1
@@ -172,7 +199,7 @@ theorem pubRemoveConn_PP (w : World) (p slot : Nat) : PStepP p w (pubRemoveConn 
       refine .trans (.trans ?_ (.setP _ _)) (detachSender_PP _ _ _)
       unfold pubRelease
       split
-      next c hc => exact .setC' hc _ rfl rfl rfl
+      next c hc => exact .setC' hc _ rfl rfl rfl (fun h => h)
       · exact .refl _
 
 theorem pubAttach_PP (w : World) (p slot : Nat) (e : SubEntry) (P : Pub) (gh : List Nat) :
@@ -180,8 +207,8 @@ theorem pubAttach_PP (w : World) (p slot : Nat) (e : SubEntry) (P : Pub) (gh : L
   unfold pubAttach
   refine .trans ?_ (.setP _ _)
   split
-  next c hc => exact .setC' hc _ rfl rfl rfl
-  next hc => exact .pushC _ _ rfl rfl hc
+  next c hc => exact .setC' hc _ rfl rfl rfl (fun _ => .inl rfl)
+  next hc => exact .pushC _ _ rfl rfl rfl hc
 
 theorem pubCreateConn_PP (w : World) (p slot : Nat) (e : SubEntry) : PStepP p w (pubCreateConn w p slot e) := by
   rw [pubCreateConn_eq]
